@@ -113,24 +113,69 @@ enum OpForm {
     Assign,
 }
 
-/// A copy of the user's impl in which the anonymous lifetimes (`'_`) of the header have names.
+/// A copy of the user's impl in which the anonymous lifetimes of the header (`'_`, and references without a
+/// lifetime nested in the header types) have names.
 ///
-/// The derived impls repeat the header types where `'_` is not allowed (`type Output = W<'_>;`, also through `Self`).
+/// The derived impls repeat the header types where an anonymous lifetime is not allowed
+/// (`type Output = W<'_>;`, also through `Self`). The reference at the top of the self type or of `Rhs` is the
+/// reference form of the operator and is left alone; so is the inside of function pointer types and of
+/// `Fn(..)` bounds, where an anonymous lifetime is bound by the signature itself.
 fn name_anonymous_lifetimes(item_impl: &ItemImpl) -> ItemImpl {
+    use syn::visit_mut::{self, VisitMut};
     struct Visitor(Vec<syn::Lifetime>);
-    impl syn::visit_mut::VisitMut for Visitor {
+    impl Visitor {
+        fn fresh(&mut self, span: Span) -> syn::Lifetime {
+            let lifetime = syn::Lifetime::new(&format!("'__l{}", self.0.len()), span);
+            self.0.push(lifetime.clone());
+            lifetime
+        }
+        fn visit_operand(&mut self, ty: &mut Type) {
+            match ty {
+                Type::Group(t) => self.visit_operand(&mut t.elem),
+                Type::Paren(t) => self.visit_operand(&mut t.elem),
+                Type::Reference(t) => {
+                    if let Some(lifetime) = &mut t.lifetime {
+                        self.visit_lifetime_mut(lifetime);
+                    }
+                    self.visit_type_mut(&mut t.elem);
+                }
+                ty => self.visit_type_mut(ty),
+            }
+        }
+    }
+    impl VisitMut for Visitor {
         fn visit_lifetime_mut(&mut self, i: &mut syn::Lifetime) {
             if i.ident == "_" {
-                *i = syn::Lifetime::new(&format!("'__l{}", self.0.len()), i.span());
-                self.0.push(i.clone());
+                *i = self.fresh(i.span());
             }
+        }
+        fn visit_type_reference_mut(&mut self, i: &mut syn::TypeReference) {
+            if i.lifetime.is_none() {
+                i.lifetime = Some(self.fresh(i.and_token.span));
+            }
+            visit_mut::visit_type_reference_mut(self, i);
+        }
+        fn visit_type_bare_fn_mut(&mut self, _: &mut syn::TypeBareFn) {}
+        fn visit_parenthesized_generic_arguments_mut(
+            &mut self,
+            _: &mut syn::ParenthesizedGenericArguments,
+        ) {
         }
     }
     let mut item_impl = item_impl.clone();
     let mut visitor = Visitor(Vec::new());
-    syn::visit_mut::VisitMut::visit_type_mut(&mut visitor, &mut item_impl.self_ty);
+    visitor.visit_operand(&mut item_impl.self_ty);
     if let Some((_, path, _)) = &mut item_impl.trait_ {
-        syn::visit_mut::VisitMut::visit_path_mut(&mut visitor, path);
+        for segment in &mut path.segments {
+            if let syn::PathArguments::AngleBracketed(args) = &mut segment.arguments {
+                for arg in &mut args.args {
+                    match arg {
+                        syn::GenericArgument::Type(ty) => visitor.visit_operand(ty),
+                        arg => visitor.visit_generic_argument_mut(arg),
+                    }
+                }
+            }
+        }
     }
     for (index, lifetime) in visitor.0.into_iter().enumerate() {
         let param = syn::GenericParam::Lifetime(syn::LifetimeParam::new(lifetime));
